@@ -40,6 +40,9 @@ type StopCase struct {
 	PerturbWho    int `json:",omitempty"` // 0 none, 1 reader goroutine, 2 Stream goroutine, 3 both
 	PerturbMicros int `json:",omitempty"`
 	PerturbLevel  int `json:",omitempty"` // 1 error logs, 2 + info, 3 + debug
+	// IdleMs: the master pauses this long in front of its third packet (a long-lived, mostly idle attempt:
+	// anything the library does periodically in the background gets a chance to run)
+	IdleMs int `json:",omitempty"`
 }
 
 // StopObs is everything observed.
@@ -223,7 +226,7 @@ func runStop(c *StopCase) *StopObs {
 			nn++
 			if nn == f.At {
 				doCancel()
-				return errInjected
+				return handlerErr(f)
 			}
 			return nil
 		}}
@@ -260,6 +263,9 @@ func runStop(c *StopCase) *StopObs {
 			}
 			if f.Kind == "cancel_out" && i == f.At {
 				doCancel()
+			}
+			if c.IdleMs > 0 && i == 2 {
+				time.Sleep(time.Duration(c.IdleMs) * time.Millisecond)
 			}
 			return true
 		}
